@@ -189,6 +189,9 @@ def run(prop, tier, seed, replay=None):
     summarize(prop, rep, traces, concrete, results, devs)
     if prop == "C06":
         uid_cache_conformance(rep, [t for t in traces if t["cfg"].get("frontend") == "store-api"])
+    if prop == "C02":
+        from . import racecheck
+        racecheck.reader_overlap(rep, tier, seed)
     nev = sum(len(t["events"]) for t in traces)
     rep.coverage.update(mc)
     rep.coverage.update({
